@@ -218,6 +218,18 @@ def hdf_case(ctx, spec, idx, out):
     else:
         obj = CorrFunc(**members)
         cls = CorrFunc
+    # what was written is what is read back WHATEVER the path held before: every third case writes over an older product
+    # with all four pair counts (same or other shape), or over a file that is no HDF5 file at all
+    hist = ["fresh", "over-richer-same-shape", "over-richer-other-shape", "over-garbage"][idx % 4 if idx % 3 == 0 else 0]
+    if hist.startswith("over-richer"):
+        B2, N2 = (B, N) if hist.endswith("same-shape") else (B + 1, N + 2)
+        bin2 = binning if hist.endswith("same-shape") else Binning(rand_edges(rng, B2), closed=spec["closed"])
+        CorrFunc(**{k: make_ncounts(rng, bin2, B2, N2, spec["auto"], "dense") for k in KINDS}).to_file(path)
+    elif hist == "over-garbage":
+        with open(path, "wb") as f:
+            f.write(b"not an hdf5 file" * 40)
+    ctx.bump("hdf-history:%s" % hist)
+    replay["path_held_before"] = hist
     try:
         obj.to_file(path)
     except Exception as e:
@@ -414,6 +426,11 @@ def txt_case(ctx, spec, idx, out):
         obj = cls(Binning(edges, closed=spec["closed"]), np.array(data, dtype="f8"), np.array(samples, dtype="f8"))
         err = np.asarray(obj.error, dtype="f8")
         prefix = os.path.join(ctx.workdir, "txt_%d" % idx)
+        if idx % 3 == 0:      # the three files already exist, written for an older product with more bins and samples
+            B0, M0 = B + 2, M + 3
+            e0 = [0.01 * k for k in range(B0 + 1)]
+            cls(Binning(e0, closed=spec["closed"]), np.arange(B0, dtype="f8") + 1.0, np.ones((M0, B0)) * 7.0).to_files(prefix)
+            ctx.bump("txt-history:over-longer-files")
         try:
             obj.to_files(prefix)
         except Exception as e:
